@@ -306,7 +306,11 @@ pub fn run_calls(b: &mut Built, sc: &Scenario, spec: &StratSpec, seed: u64, repl
     #[cfg(feature = "par")]
     let other_pool = sc.from_pool.map(|n| rayon::ThreadPoolBuilder::new().num_threads(n).build().expect("pool"));
     let ctx2 = ctx.clone();
-    let report = detsim::run(cfg, || {
+    #[cfg(feature = "real")]
+    let runner = detsim::ext::run_ext;
+    #[cfg(not(feature = "real"))]
+    let runner = detsim::run;
+    let report = runner(cfg, || {
         detsim::set_info(PH_CALLER);
         for (ci, call) in sc.calls.iter().enumerate() {
             ctx.cur_call.store(ci, Ordering::SeqCst);
@@ -407,7 +411,11 @@ pub fn interleaving_digest(ev: &[Event]) -> u64 {
 pub fn log_digest(ev: &[Event]) -> u64 {
     let mut h = 0xcbf2_9ce4_8422_2325u64;
     for e in ev {
-        for b in [(e.kind as u8) as u64, e.sid as u64, e.inst, e.task as u64, e.worker as u64, e.aux] {
+        #[cfg(feature = "real")]
+        let task = (e.task != 0) as u64;
+        #[cfg(not(feature = "real"))]
+        let task = e.task as u64;
+        for b in [(e.kind as u8) as u64, e.sid as u64, e.inst, task, e.worker as u64, e.aux] {
             h ^= b;
             h = h.wrapping_mul(0x0000_0100_0000_01b3);
         }
